@@ -37,6 +37,7 @@ def main():
     ap.add_argument("--replay", default=None)
     ap.add_argument("--budget", type=float, default=None, help="wall-clock budget in seconds (generation stops, never a violation)")
     ap.add_argument("--no-selftest", action="store_true")
+    ap.add_argument("--dump-failures", default=None, help="write key<TAB>message of every failure bucket to this file (development aid)")
     args = ap.parse_args()
     pid = args.pid.upper()
     try:
@@ -102,6 +103,10 @@ def main():
             buckets[k] = fl
     for k in sorted(known_hit):
         print(f"KNOWN-FINDING: property={pid} key={k} {known_hit[k]}")
+    if args.dump_failures:
+        with open(args.dump_failures, "w") as f:
+            for k in sorted(buckets):
+                f.write(f"{k}\t{buckets[k].get('msg')}\n")
     stale = sorted(set(known) - set(known_hit))
     exhaustive = bool(report.extra.pop("exhaustive", False))
     viol = 0
